@@ -157,8 +157,8 @@ def run_open(spec, rec):
                 u.value = 'u'
                 s.add(u)
             name = '%s_%d' % (seg, base + rng.randint(3, 9))
-            how = ('add', 'ctor', 'parent', 'children', 'proxy-value', 'ctor-datatype')[i % 6]
-            mism = ('level', 'version')[(i // 6) % 2]
+            how = ('add', 'ctor', 'parent', 'children', 'proxy-value', 'ctor-datatype', 'segment-value')[i % 7]
+            mism = ('level', 'version')[(i // 7) % 2]
             lvl = 3 - level if mism == 'level' else level
             ver = hist._other_version(v) if mism == 'version' else v
             before = treeinv.snapshot(s)
@@ -178,6 +178,10 @@ def run_open(spec, rec):
                                                                             validation_level=level)]
                 elif how == 'proxy-value':
                     getattr(s, name.lower()).value = 'x' * 70000 if level == 1 else 'fine'
+                elif how == 'segment-value':
+                    # the whole segment text re-assigned with a value that STRICT refuses (over-long) / a wrong segment name
+                    bad = (seg + '|x|' + 'y' * 70000) if level == 1 else ('QQQ|1|2' if seg != 'QQQ' else 'PID|1')
+                    s.value = bad
                 elif how == 'ctor-datatype':
                     if not seg.startswith('Z'):
                         continue
